@@ -4,6 +4,7 @@ import (
 	"encoding/json"
 	"fmt"
 	"os"
+	"strings"
 	"testing"
 	"testing/synctest"
 	"time"
@@ -69,13 +70,123 @@ func TestWorker(t *testing.T) {
 		runOne(t, sc, prop, rf.Seed, rf.Run, rf.Choices, true, out)
 		return
 	}
+	if os.Getenv("VERIF_AGG") == "1" && outName != "" {
+		theAgg = newAgg()
+		pf, err := os.OpenFile(outName+".progress", os.O_APPEND|os.O_CREATE|os.O_WRONLY, 0o644)
+		if err == nil {
+			progressFile = pf
+			defer pf.Close()
+		}
+	}
 	start := time.Now()
 	for run := from; run < from+n; run++ {
 		if budget > 0 && time.Since(start) > time.Duration(budget)*time.Second {
 			break
 		}
+		if progressFile != nil {
+			fmt.Fprintf(progressFile, "%d\n", run)
+		}
 		runOne(t, sc, prop, seed, run, nil, full, out)
 	}
+	flushAgg(out)
+}
+
+// ---- aggregation: one summary line per worker process instead of one line per run ----
+
+type aggT struct {
+	First, Last int
+	Runs        int            `json:"runs"`
+	Steps       int64          `json:"steps"`
+	SimNs       int64          `json:"sim_ns"`
+	Ends        map[string]int `json:"ends"`
+	Inconcl     map[string]int `json:"inconclusive"`
+	Probes      map[string]int `json:"probes"`
+	Faults      map[string]int `json:"faults"`
+	Strategies  map[string]int `json:"strategies"`
+	CfgDist     map[string]map[string]int `json:"cfgdist"`
+	CfgSums     map[string]float64 `json:"cfgsums"`
+	All         []string       `json:"all"`        // distinct sched^trace hashes
+	Nontrivial  []string       `json:"nontrivial"` // ... of non-trivial runs
+	Edges       []uint64       `json:"edges"`
+	all, nontriv map[string]struct{}
+	edges       map[uint64]struct{}
+}
+
+var (
+	theAgg       *aggT
+	progressFile *os.File
+)
+
+func newAgg() *aggT {
+	return &aggT{First: -1, Ends: map[string]int{}, Inconcl: map[string]int{}, Probes: map[string]int{}, Faults: map[string]int{}, Strategies: map[string]int{},
+		CfgDist: map[string]map[string]int{}, CfgSums: map[string]float64{}, all: map[string]struct{}{}, nontriv: map[string]struct{}{}, edges: map[uint64]struct{}{}}
+}
+
+func (a *aggT) add(rec *Record, edges []uint64) {
+	if a.First < 0 {
+		a.First = rec.Run
+	}
+	a.Last = rec.Run
+	a.Runs++
+	a.Steps += int64(rec.Steps)
+	a.SimNs += rec.SimNs
+	a.Ends[rec.End]++
+	if rec.Inconcl != "" {
+		a.Inconcl[rec.Inconcl]++
+	}
+	nf := 0
+	for k, v := range rec.Probes {
+		a.Probes[k] += v
+	}
+	for k, v := range rec.Faults {
+		a.Faults[k] += v
+		nf += v
+	}
+	if st, ok := rec.Cfg["strategy"].(string); ok {
+		a.Strategies[st]++
+	}
+	for _, k := range strings.Split(os.Getenv("VERIF_CFG_KEYS"), ",") {
+		if v, ok := rec.Cfg[k]; ok && k != "" {
+			if a.CfgDist[k] == nil {
+				a.CfgDist[k] = map[string]int{}
+			}
+			a.CfgDist[k][fmt.Sprint(v)]++
+		}
+	}
+	for _, k := range strings.Split(os.Getenv("VERIF_CFG_SUM_KEYS"), ",") {
+		switch v := rec.Cfg[k].(type) {
+		case int:
+			a.CfgSums[k] += float64(v)
+		case float64:
+			a.CfgSums[k] += v
+		}
+	}
+	h := rec.SchedHash + rec.TraceHash
+	a.all[h] = struct{}{}
+	if nf > 0 || (rec.Switches >= 3 && rec.Contended >= 1) {
+		a.nontriv[h] = struct{}{}
+	}
+	for _, e := range edges {
+		a.edges[e] = struct{}{}
+	}
+}
+
+func flushAgg(out *os.File) {
+	a := theAgg
+	if a == nil || a.Runs == 0 {
+		return
+	}
+	for h := range a.all {
+		a.All = append(a.All, h)
+	}
+	for h := range a.nontriv {
+		a.Nontrivial = append(a.Nontrivial, h)
+	}
+	for e := range a.edges {
+		a.Edges = append(a.Edges, e)
+	}
+	writeJSONLine(out, map[string]any{"agg": a})
+	theAgg = newAgg()
 }
 
 func runOne(t *testing.T, sc *Scenario, prop string, seed uint64, run int, forced []uint32, full bool, out *os.File) {
@@ -132,12 +243,24 @@ func runOne(t *testing.T, sc *Scenario, prop string, seed uint64, run int, force
 		if full || run%40 == 0 {
 			rec.Edges = sim.Edges()
 		}
-		rec.WallUs = time.Since(wall).Microseconds() // fake clock inside bubble; overwritten below
-		rec.WallUs = 0
-		writeJSONLine(out, rec)
+		_ = wall
+		if theAgg != nil {
+			var ed []uint64
+			if run%40 == 0 {
+				ed = sim.Edges()
+			}
+			theAgg.add(rec, ed)
+			// full records only for violations and a few samples
+			if rec.Viol != nil || run%97 == 0 {
+				writeJSONLine(out, rec)
+			}
+		} else {
+			writeJSONLine(out, rec)
+		}
 		if res.End != simrt.EndClean {
 			// The bubble cannot be left cleanly with blocked tasks: end the
 			// process, the driver restarts after this run.
+			flushAgg(out)
 			out.Sync()
 			os.Exit(3)
 		}
